@@ -147,7 +147,7 @@ func runC04(w *World, r *Report) {
 		csr := w.Fn("compose", "concatStreamReader")
 		eofCmp := 0
 		instrs(csr, func(in ssa.Instruction) {
-			if b, ok := in.(*ssa.BinOp); ok && b.Op == token.EQL && (ioEOF(b.X) || ioEOF(b.Y)) {
+			if b, ok := in.(*ssa.BinOp); ok && (b.Op == token.EQL || b.Op == token.NEQ) && (ioEOF(b.X) || ioEOF(b.Y)) {
 				eofCmp++
 			}
 		})
